@@ -1862,7 +1862,7 @@ class NoteRestToken(ComplexToken):
 
         # Deterministic order
         pitch_duration_tokens_sorted = sorted(
-            pitch_duration_tokens, key=lambda t: (t.category.value, t.encoding)
+            pitch_duration_tokens, key=lambda t: t.category.value
         )
         decoration_tokens_sorted = sorted(
             decoration_tokens, key=lambda t: (t.category.value, t.encoding)
